@@ -37,7 +37,7 @@ PLAN_N4 = {
 
 def spec(tier):
   small = 'smallq' if tier == 'quick' else 'small'
-  s = [(1, eg.T21 + eg.U, 'all', 'one', small),
+  s = [(1, eg.T21 + eg.U, 'allx', 'one', small),
        (2, eg.T21 + eg.U, 'all', 'one', small)]
   if tier == 'quick':
     s.append((3, eg.TTOPO, 'first', 'one', 'n3q'))
